@@ -23,19 +23,24 @@ def _alarm(signum, frame):
 
 
 def _call(task):
-    """one case under a wall-clock alarm: a case that does not finish is a reportable outcome
-    (signature case-timeout), never a stuck run."""
+    """one case under a wall-clock alarm.  A case that does not finish in time is run once more with four
+    times the budget (the machine may just be busy); only if that fails too is it reported (signature
+    case-timeout) - never a stuck run, and not a verdict that depends on the load."""
     import signal
     name, case = task
     old = signal.signal(signal.SIGALRM, _alarm)
-    signal.setitimer(signal.ITIMER_REAL, CASE_TIMEOUT_S)
     try:
-        return WORKERS[name](case)
-    except CaseTimeout:
+        for budget in (CASE_TIMEOUT_S, 4 * CASE_TIMEOUT_S):
+            signal.setitimer(signal.ITIMER_REAL, budget)
+            try:
+                return WORKERS[name](case)
+            except CaseTimeout:
+                continue
+            finally:
+                signal.setitimer(signal.ITIMER_REAL, 0)
         return {"key": core.digest(case), "nontrivial": True, "outcome": "timeout", "transitions": 1,
-                "problems": [("case-timeout:%s" % name, "case did not finish within %d s: %r" % (CASE_TIMEOUT_S, case))]}
+                "problems": [("case-timeout:%s" % name, "case did not finish within %d s: %r" % (4 * CASE_TIMEOUT_S, case))]}
     finally:
-        signal.setitimer(signal.ITIMER_REAL, 0)
         signal.signal(signal.SIGALRM, old)
 
 
